@@ -318,21 +318,86 @@ package internals
 //@   requires[C17] fn != nil && test != nil
 //@   modifies test.Func
 //@   ensures[C17] test.Func != nil
+//@   ensures[C17,C20] wraps_given_predicate: isclo(test.Func, "internals.TestFuncFromBool$1") && *captured(test.Func, "internals.TestFuncFromBool$1", 0) == fn
 
 //@ func TestNotFuncFromBool(fn, test)
 //@   requires[C17] fn != nil && test != nil
 //@   modifies test.Func
 //@   ensures[C17] test.Func != nil
+//@   ensures[C17] wraps_given_predicate_negated: isclo(test.Func, "internals.TestNotFuncFromBool$1") && *captured(test.Func, "internals.TestNotFuncFromBool$1", 0) == fn
 
 //@ func TestFuncFromBool$1(val, ctx)
 //@   captures[C17] fn_set: fn != nil
 //@   implements functype TFunc
 //@   modifies ctx.(*SchemaCtx).Exit, recfp(ctx.(*SchemaCtx).ExecCtx), TR(ctx.(*SchemaCtx))
+//@   ensures[C17,C20] fails_iff_predicate_false: ite(bverdict(fn, val), tfunc_pass(ctx.(*SchemaCtx)), tfunc_fail(ctx.(*SchemaCtx), val))
 
 //@ func TestNotFuncFromBool$1(val, ctx)
 //@   captures[C17] fn_set: fn != nil
 //@   implements functype TFunc
 //@   modifies ctx.(*SchemaCtx).Exit, recfp(ctx.(*SchemaCtx).ExecCtx), TR(ctx.(*SchemaCtx))
+//@   ensures[C17] fails_iff_predicate_true: ite(bverdict(fn, val), tfunc_fail(ctx.(*SchemaCtx), val), tfunc_pass(ctx.(*SchemaCtx)))
+
+
+// ---- test constructors and options (C17, C20, C11): a built-in test is its code, its parameter and exactly
+// the predicate closure over the given parameter.
+//@ spec blanktest(t, code) = t.IssueCode == code && t.IssuePath == "" && t.Func == nil && t.IssueFmtFunc == nil
+//@ spec wraps(f, g) = isclo(f, "internals.TestFuncFromBool$1") && *captured(f, "internals.TestFuncFromBool$1", 0) == g
+//@ spec oneparam(t, key, v) = t.Params != nil && has(t.Params, key) && t.Params[key] == v
+//@ func LenMin(n)
+//@   pure
+//@   ensures[C17,C20,C11] code_and_param: blanktest(result0, "min") && oneparam(result0, "min", box(n)) && isnew(result0.Params)
+//@   ensures[C17,C20] predicate_over_given_parameter: result1 != nil && isclo(result1, "internals.LenMin$1") && *captured(result1, "internals.LenMin$1", 0) == n
+//@ func LenMax(n)
+//@   pure
+//@   ensures[C17,C20,C11] code_and_param: blanktest(result0, "max") && oneparam(result0, "max", box(n)) && isnew(result0.Params)
+//@   ensures[C17,C20] predicate_over_given_parameter: result1 != nil && isclo(result1, "internals.LenMax$1") && *captured(result1, "internals.LenMax$1", 0) == n
+//@ func Len(n)
+//@   pure
+//@   ensures[C17,C20,C11] code_and_param: blanktest(result0, "len") && oneparam(result0, "len", box(n)) && isnew(result0.Params)
+//@   ensures[C17,C20] predicate_over_given_parameter: result1 != nil && isclo(result1, "internals.Len$1") && *captured(result1, "internals.Len$1", 0) == n
+//@ func EQ(n)
+//@   pure
+//@   ensures[C17,C20,C11] code_and_param: blanktest(result0, "eq") && oneparam(result0, "eq", box(n)) && isnew(result0.Params)
+//@   ensures[C17,C20] predicate_over_given_parameter: result1 != nil && isclo(result1, "internals.EQ$1") && *captured(result1, "internals.EQ$1", 0) == n
+//@ func LTE(n)
+//@   pure
+//@   ensures[C17,C20,C11] code_and_param: blanktest(result0, "lte") && oneparam(result0, "lte", box(n)) && isnew(result0.Params)
+//@   ensures[C17,C20] predicate_over_given_parameter: result1 != nil && isclo(result1, "internals.LTE$1") && *captured(result1, "internals.LTE$1", 0) == n
+//@ func GTE(n)
+//@   pure
+//@   ensures[C17,C20,C11] code_and_param: blanktest(result0, "gte") && oneparam(result0, "gte", box(n)) && isnew(result0.Params)
+//@   ensures[C17,C20] predicate_over_given_parameter: result1 != nil && isclo(result1, "internals.GTE$1") && *captured(result1, "internals.GTE$1", 0) == n
+//@ func LT(n)
+//@   pure
+//@   ensures[C17,C20,C11] code_and_param: blanktest(result0, "lt") && oneparam(result0, "lt", box(n)) && isnew(result0.Params)
+//@   ensures[C17,C20] predicate_over_given_parameter: result1 != nil && isclo(result1, "internals.LT$1") && *captured(result1, "internals.LT$1", 0) == n
+//@ func GT(n)
+//@   pure
+//@   ensures[C17,C20,C11] code_and_param: blanktest(result0, "gt") && oneparam(result0, "gt", box(n)) && isnew(result0.Params)
+//@   ensures[C17,C20] predicate_over_given_parameter: result1 != nil && isclo(result1, "internals.GT$1") && *captured(result1, "internals.GT$1", 0) == n
+//@ func In(values)
+//@   pure
+//@   ensures[C17,C20,C11] code_and_param: blanktest(result0, "one_of_options") && oneparam(result0, "one_of_options", box(values)) && isnew(result0.Params)
+//@   ensures[C17,C20] predicate_over_given_parameter: result1 != nil && isclo(result1, "internals.In$1") && *captured(result1, "internals.In$1", 0) == values
+//@ func Required()
+//@   pure
+//@   ensures[C17,C04] required_marker: blanktest(result, "required") && result.Params == nil
+
+// Options may set the code, path, params and formatter of the test they are given; never its function, never another test.
+//@ functype TestOption(self, test)
+//@   requires test != nil
+//@   modifies test.IssueCode, test.IssuePath, test.Params, test.IssueFmtFunc
+
+//@ func NewTestFunc(IssueCode, fn, options)
+//@   requires[C17] fn != nil
+//@   pure
+//@   requires[C06] options_not_nil: forall(i, 0, len(options), options[i] != nil)
+//@   ensures[C17] fresh_test: result != nil && isnew(result)
+//@   ensures[C17] wraps_given_predicate: result.Func != nil && isclo(result.Func, "internals.TestFuncFromBool$1") && *captured(result.Func, "internals.TestFuncFromBool$1", 0) == fn
+//@   ensures[C17] no_options_keeps_code: len(options) == 0 ==> result.IssueCode == IssueCode && result.IssuePath == "" && result.Params == nil && result.IssueFmtFunc == nil
+//@   loop rangeindex.loop#1
+//@     invariant untouched_before_first_option: zz_i == 0 ==> t.IssueCode == IssueCode && t.IssuePath == "" && t.Params == nil && t.IssueFmtFunc == nil
 
 // ---- absence predicates (C04)
 
